@@ -34,8 +34,13 @@ def log(*a):
 
 
 def sh(cmd, cwd=None, env=None, timeout=None, stdin=None, stdout=subprocess.PIPE):
-    p = subprocess.run(cmd, cwd=cwd, env=env, timeout=timeout, stdin=stdin, stdout=stdout,
-                       stderr=subprocess.STDOUT, text=True)
+    try:
+        p = subprocess.run(cmd, cwd=cwd, env=env, timeout=timeout, stdin=stdin, stdout=stdout,
+                           stderr=subprocess.STDOUT, text=True)
+    except subprocess.TimeoutExpired as e:
+        # a hung harness / build is a broken correspondence, not a crash of the orchestrator
+        out = e.stdout if isinstance(e.stdout, str) else (e.stdout or b"").decode("utf-8", "replace")
+        return 124, (out or "") + f"\n[timed out after {timeout} s: {' '.join(map(str, cmd))[:200]}]"
     return p.returncode, (p.stdout or "")
 
 
@@ -205,7 +210,8 @@ def build_harness(cfg):
     return rc, out, exe
 
 
-def run_harness(cfg, exe, seed, n, tier, outfile, replay=None, timeout=3000):
+def run_harness(cfg, exe, seed, n, tier, outfile, replay=None, timeout=None):
+    timeout = timeout or cfg.get("harness_timeout_s", {"quick": 900, "thorough": 3000}).get(tier, 3000)
     cmd = [exe, "-seed", str(seed), "-n", str(n), "-tier", tier, "-out", outfile]
     if replay:
         cmd += ["-replay", replay]
@@ -216,7 +222,10 @@ def run_harness(cfg, exe, seed, n, tier, outfile, replay=None, timeout=3000):
 def run_driver(cfg, casefile, outfile, timeout=3000):
     exe = os.path.join(LEAN, ".lake", "build", "bin", cfg["driver"])
     with open(casefile) as i, open(outfile, "w") as o:
-        p = subprocess.run([exe], stdin=i, stdout=o, stderr=subprocess.PIPE, text=True, timeout=timeout)
+        try:
+            p = subprocess.run([exe], stdin=i, stdout=o, stderr=subprocess.PIPE, text=True, timeout=timeout)
+        except subprocess.TimeoutExpired:
+            return 124, f"driver timed out after {timeout} s"
     return p.returncode, p.stderr
 
 
